@@ -95,8 +95,15 @@ func vtimeCampaign(o *hlib.Opts, r *hlib.Result, m *hlib.Model) {
 	const unit = time.Millisecond
 	for i := 0; i < n; i++ {
 		c := genVtCfg(rng, unit, true)
+		// Every fourth limiter is built from a configuration file by internal/cmd
+		// (the twin always directly, so the two constructions are also compared).
+		c.yaml = i%4 == 0
 		lim, al := c.realDyn()
+		c.yaml = false
 		twin, twinAl := c.realDyn()
+		if i%4 == 0 {
+			r.Count("vtime.limiter_from_yaml")
+		}
 		pure, withReset := newRef(c, false), newRef(c, true)
 		pure.dynamic, withReset.dynamic = c.dyn, c.dyn
 		lines := c.modelLines()
